@@ -1032,24 +1032,43 @@ func checkDerivedPassphraseIsCallersOwn(c *Ctx, rule string) {
 				if g, isG := x.X.(*ssa.Global); isG {
 					return "the package variable " + g.Name() + " in " + fnName(fn)
 				}
+			case *ssa.Call:
+				// a value computed from the passphrase (trimmed, normalised, re-encoded) is another passphrase: the side
+				// that creates the key and the side that checks it must both use the caller's bytes as they are
+				if x.Type().String() == "[]byte" && !x.Call.IsInvoke() {
+					return "the result of " + calleeShort(&x.Call) + " in " + fnName(fn)
+				}
 			}
 		}
 		return ""
 	}
 	for _, fn := range p.FuncsIn("waddrmgr") {
+		var sites []*ssa.Call
 		for _, call := range callsNamed(fn, "DeriveKey") {
-			if recvName(call.Call.StaticCallee()) != "SecretKey" || len(call.Call.Args) < 2 {
-				continue
+			if recvName(call.Call.StaticCallee()) == "SecretKey" && len(call.Call.Args) >= 2 {
+				sites = append(sites, call)
+			}
+		}
+		// the creating side: snacl.NewSecretKey(passphrase, ...), argument shifted into DeriveKey's position
+		for _, call := range callsNamed(fn, "NewSecretKey") {
+			if g := call.Call.StaticCallee(); g != nil && strings.HasSuffix(fnPkgPath(g), "/snacl") && len(call.Call.Args) >= 1 {
+				sites = append(sites, call)
+			}
+		}
+		for _, call := range sites {
+			passIdx := 1
+			if calleeShort(&call.Call) == "NewSecretKey" {
+				passIdx = 0
 			}
 			n++
 			// the argument is the address of the passphrase variable: what is stored there
 			var vals []ssa.Value
-			if al, ok := stripConv(call.Call.Args[1]).(*ssa.Alloc); ok {
+			if al, ok := stripConv(call.Call.Args[passIdx]).(*ssa.Alloc); ok {
 				for _, st := range storesTo(al) {
 					vals = append(vals, st.Val)
 				}
 			} else {
-				vals = append(vals, call.Call.Args[1])
+				vals = append(vals, call.Call.Args[passIdx])
 			}
 			why := ""
 			for _, v := range vals {
